@@ -26,12 +26,15 @@ def plan(tier, ctx):
     j = []
     def cfg(name, acts, **kw):
         nf = 1 + len(acts)
-        d = ['NF=%d' % nf] + ['A%d=%d' % (i + 2, a) for i, a in enumerate(acts)]
+        d = ['NF=%d' % nf] + ['A%d=%d' % (i + 2, a) for i, a in enumerate(acts)] + list(kw.pop('defines', []))
         return fvm.config('C04', name, 'join.c', nf, 4, 'sc', srcs=src, defines=d, spec=_spec(nf), bounds='target + ' + name, timeout=kw.pop('timeout', 1200), **kw)
     j += cfg('join', [J])
     j += cfg('detach', [D])
     if tier == 'thorough':
         j += cfg('join_noresult', [N], timeout=1500, required=False)
+        # the join scenario with kernel-thread migration (K_MIGRATE in kernel_contract.h): whenever a fiber comes back from a yield it may be
+        # running under another manager; no verdict inside 20 min so far (stretch)
+        j += cfg('join_migrate', [J], defines=['K_MIGRATE'], timeout=1500, required=False)
         j += cfg('tryjoin', [Y], timeout=1500, required=False)
         # two CONCURRENT actors on one fiber (join+join, join+tryjoin, join+detach, tryjoin+detach) are not registered: see DESIGN.md section 9
     return j
